@@ -5,7 +5,7 @@ import FP.Proofs.KLAEExtra
 
 On `a → b → c`, `f = (4, 1)`, `error_scaling = {(a,b): 1/2}`, `k = 1`: every satisfying assignment routes
 its layer through `a, b, c`; every optimal one has weight 1, error columns `3` and `0`, solver
-objective `3/2` and reported objective `3`.
+objective `3/2` and reported objective `3/2` (regression example for fix 1c464ac).
 -/
 namespace FP.ErrExample
 open FP FP.Spec
@@ -33,11 +33,13 @@ theorem path_forced (c : PathCfg) (hae : c.allowEmpty = false) (a : Asg)
 
 theorem range_k : List.range inp.k = [0] := by decide
 
-/-- **every optimum of the scaled instance is reported inconsistently**: solver objective `3/2`,
-`get_objective_value()` model `3` -/
-theorem every_optimum_inconsistent (a : Asg) (hsat : Sat a (klaeLP inp))
+/-- **regression example for fix 1c464ac**: every optimum of the scaled instance has error columns
+`3` and `0`, solver objective `3/2` and reported objective `3/2` (the pre-fix formula, the unscaled
+sum, gave `3` and `is_valid_solution()` rejected the optimum) -/
+theorem every_optimum_consistent (a : Asg) (hsat : Sat a (klaeLP inp))
     (hopt : ∀ a', Sat a' (klaeLP inp) → evalTerms a (klaeLP inp).obj ≤ evalTerms a' (klaeLP inp).obj) :
-    reportedObjective inp a = 3 ∧ evalTerms a (klaeLP inp).obj = 3/2 := by
+    a (eeVar ("a", "b")) = 3 ∧ a (eeVar ("b", "c")) = 0 ∧
+      evalTerms a (klaeLP inp).obj = 3/2 ∧ reportedObjective inp a = 3/2 ∧ unscaledErrorSum inp a = 3 := by
   obtain ⟨henc, hwc, heec, hbin, herr⟩ := klae_sat_parts inp a hsat
   obtain ⟨hxab, hxbc⟩ := path_forced inp.fi.cfg rfl a henc 0 (by decide)
   have hab : ("a", "b") ∈ inp.basicEdges := by rw [basic]; simp
@@ -61,13 +63,14 @@ theorem every_optimum_inconsistent (a : Asg) (hsat : Sat a (klaeLP inp))
   have hle := hopt a0 hsat0
   rw [hobj0, totalErr_val, klaeLP_obj] at hle
   have hobj := klaeLP_obj inp a
-  unfold reportedObjective
+  rw [objective_consistent]
+  unfold unscaledErrorSum
   rw [hobj]
   rw [basic] at hle ⊢
   simp only [List.map_cons, List.map_nil, List.sum_cons, List.sum_nil, sc_ab, sc_bc] at hle ⊢
   generalize a (eeVar ("a", "b")) = e1 at *
   generalize a (eeVar ("b", "c")) = e2 at *
   generalize a (weightsVar 0) = x at *
-  constructor <;> grind
+  refine ⟨?_, ?_, ?_, ?_, ?_⟩ <;> grind
 
 end FP.ErrExample
